@@ -181,6 +181,7 @@ def mutOfJson (j : Json) : Except String Mut := do
   | "set_unit" => do pure (.setUnit (← getStr j "col") (← getStr j "unit"))
   | "set_name" => do pure (.setName (← getStr j "name"))
   | "add_dest" => do pure (.addDest (← getStr j "d"))
+  | "remove_dest" => do pure (.removeDest (← getStr j "d"))
   | "add_column" => do pure (.addColumn (← getStr j "col") (← getStr j "unit"))
   | "set_disp_unit" => do pure (.setDispUnit (← getStr j "col") (← getStr j "unit"))
   | "set_fmt" => do pure (.setFmt (← getStr j "col") (← getStr j "spec"))
